@@ -29,8 +29,10 @@ VARIABLES i,
           sfresh,   \* [r][l] the outstanding sync was requested while r was neither linked nor linking
           wupd,     \* [r][l] keys updated by the lane since the sync window opened
           f5,       \* [r][l] keys excused as missing by known finding F5 (until r receives them)
-          swin      \* [r][l] keys for which r received an operation while its sync was outstanding
-vars == <<i, M, Hk, clears, open, pend, lp, lastClear, replica, full, synced, win, adm, alive, td, sfresh, wupd, f5, swin>>
+          swin,     \* [r][l] keys for which r received an operation while its sync was outstanding
+          nclr,     \* [l] what the runtime has handed to the store for the lane = the fold of the lane events it has processed
+          late      \* [r][l] 1 if the lane had a backlog of events (performed, not yet processed by the runtime) when r's sync was requested
+vars == <<i, M, Hk, clears, open, pend, lp, lastClear, replica, full, synced, win, adm, alive, td, sfresh, wupd, f5, swin, nclr, late>>
 
 Has(e, f) == f \in DOMAIN e
 Max(a, b) == IF a > b THEN a ELSE b
@@ -52,6 +54,7 @@ StateFrom(maps) ==
     /\ adm' = RL([k \in Keys |-> {}]) /\ alive' = [r \in Remotes |-> TRUE]
     /\ td' = [l \in MLanes |-> <<>>]
     /\ sfresh' = RL(FALSE) /\ wupd' = RL({}) /\ f5' = RL({}) /\ swin' = RL({})
+    /\ nclr' = [l \in MLanes |-> Empty] /\ late' = RL(0)
 
 TraceInit ==
     /\ i = 1
@@ -62,6 +65,7 @@ TraceInit ==
     /\ adm = RL([k \in Keys |-> {}]) /\ alive = [r \in Remotes |-> TRUE]
     /\ td = [l \in MLanes |-> <<>>]
     /\ sfresh = RL(FALSE) /\ wupd = RL({}) /\ f5 = RL({}) /\ swin = RL({})
+    /\ nclr = [l \in MLanes |-> Empty] /\ late = RL(0)
     /\ TLCSet(1, 1) /\ TLCSet(2, {})
 
 \* earliest position p >= from of sequence s holding v (0 if none)
@@ -84,18 +88,19 @@ Step(e) ==
        /\ LaneSet(e.lane, e.k, IF e.m = "upd" THEN e.v ELSE -1)
        /\ wupd' = [r \in Remotes |-> [x \in MLanes |->
                       IF x = e.lane /\ win[r][x] > 0 /\ e.m = "upd" THEN wupd[r][x] \cup {e.k} ELSE wupd[r][x]]]
-       /\ UNCHANGED <<clears, open, pend, lp, lastClear, replica, full, synced, win, alive, td, sfresh, f5, swin>>
+       /\ UNCHANGED <<clears, open, pend, lp, lastClear, replica, full, synced, win, alive, td, sfresh, f5, swin, nclr, late>>
     \/ /\ e.e = "op" /\ e.m = "clr"
        /\ LET l == e.lane IN
           /\ M' = [M EXCEPT ![l] = Empty]
           /\ Hk' = [Hk EXCEPT ![l] = [k \in Keys |-> Append(Hk[l][k], -1)]]
           /\ clears' = [clears EXCEPT ![l] = Append(@, [k \in Keys |-> Len(Hk[l][k]) + 1])]
+          /\ nclr' = nclr
           /\ adm' = [r \in Remotes |-> [x \in MLanes |->
                        IF x = l /\ win[r][x] > 0 THEN [k \in Keys |-> adm[r][x][k] \cup {-1}] ELSE adm[r][x]]]
-       /\ UNCHANGED <<open, pend, lp, lastClear, replica, full, synced, win, alive, td, sfresh, wupd, f5, swin>>
+       /\ UNCHANGED <<open, pend, lp, lastClear, replica, full, synced, win, alive, td, sfresh, wupd, f5, swin, late>>
     \/ /\ e.e = "td"
        /\ td' = [td EXCEPT ![e.lane] = <<IF e.m = "take" THEN TakeOf(M[e.lane], e.n) ELSE DropOf(M[e.lane], e.n)>>]
-       /\ UNCHANGED <<M, Hk, clears, open, pend, lp, lastClear, replica, full, synced, win, adm, alive, sfresh, wupd, f5, swin>>
+       /\ UNCHANGED <<M, Hk, clears, open, pend, lp, lastClear, replica, full, synced, win, adm, alive, sfresh, wupd, f5, swin, nclr, late>>
     \/ /\ e.e = "req" /\ e.op \in {"link", "sync"}
        /\ LET r == e.r  l == e.lane  fresh == ~open[r][l] /\ ~pend[r][l] IN
           /\ pend' = [pend EXCEPT ![r][l] = TRUE]
@@ -108,9 +113,10 @@ Step(e) ==
           /\ sfresh' = IF e.op = "sync" /\ win[r][l] = 0 THEN [sfresh EXCEPT ![r][l] = fresh] ELSE sfresh
           /\ wupd' = IF e.op = "sync" /\ win[r][l] = 0 THEN [wupd EXCEPT ![r][l] = {}] ELSE wupd
           /\ swin' = IF e.op = "sync" /\ win[r][l] = 0 THEN [swin EXCEPT ![r][l] = {}] ELSE swin
-       /\ UNCHANGED <<M, Hk, clears, open, replica, full, synced, alive, td, f5>>
+          /\ late' = IF e.op = "sync" /\ win[r][l] = 0 THEN [late EXCEPT ![r][l] = IF nclr[l] # M[l] THEN 1 ELSE 0] ELSE late
+       /\ UNCHANGED <<M, Hk, clears, open, replica, full, synced, alive, td, f5, nclr>>
     \/ /\ e.e = "req" /\ e.op = "unlink"
-       /\ UNCHANGED <<M, Hk, clears, open, pend, lp, lastClear, replica, full, synced, win, adm, alive, td, sfresh, wupd, f5, swin>>
+       /\ UNCHANGED <<M, Hk, clears, open, pend, lp, lastClear, replica, full, synced, win, adm, alive, td, sfresh, wupd, f5, swin, nclr, late>>
     \/ /\ e.e = "frame" /\ e.kind = "linked"
        /\ LET r == e.r  l == e.lane IN
           /\ open' = [open EXCEPT ![r][l] = TRUE]
@@ -118,10 +124,10 @@ Step(e) ==
              ELSE /\ replica' = [replica EXCEPT ![r][l] = Empty]
                   \* a remote that links while the map is empty needs no sync to have the full state
                   /\ full' = [full EXCEPT ![r][l] = (M[l] = Empty)]
-       /\ UNCHANGED <<M, Hk, clears, pend, lp, lastClear, synced, win, adm, alive, td, sfresh, wupd, f5, swin>>
+       /\ UNCHANGED <<M, Hk, clears, pend, lp, lastClear, synced, win, adm, alive, td, sfresh, wupd, f5, swin, nclr, late>>
     \/ /\ e.e = "frame" /\ e.kind = "event"
        /\ LET r == e.r  l == e.lane IN
-          IF ~open[r][l] THEN UNCHANGED <<lp, lastClear, replica, f5, swin>>     \* outside a link: C04's business
+          IF ~open[r][l] THEN UNCHANGED <<lp, lastClear, replica, f5, swin, nclr, late>>     \* outside a link: C04's business
           ELSE
             /\ ~Has(e, "bad")
             /\ \/ /\ e.m \in {"upd", "rem"} /\ e.k \in Keys
@@ -155,7 +161,7 @@ Step(e) ==
                   /\ replica' = [replica EXCEPT ![r][l] = Empty]
                   /\ f5' = [f5 EXCEPT ![r][l] = {}]
                   /\ swin' = swin
-       /\ UNCHANGED <<M, Hk, clears, open, pend, full, synced, win, adm, alive, td, sfresh, wupd>>
+       /\ UNCHANGED <<M, Hk, clears, open, pend, full, synced, win, adm, alive, td, sfresh, wupd, nclr, late>>
     \/ /\ e.e = "frame" /\ e.kind = "synced"
        /\ LET r == e.r  l == e.lane IN
           /\ LET Bad == IF open[r][l] /\ win[r][l] > 0
@@ -164,8 +170,13 @@ Step(e) ==
                  \* linked first misses a key that the lane UPDATED inside the sync window (the update's event was
                  \* broadcast before the remote was linked and removed the key from its snapshot).  Only a
                  \* missing key is excused, never a wrong value, and only under exactly these circumstances.
-                 Excused == {k \in Bad : /\ "F5" \in EnabledFindings /\ sfresh[r][l]
-                                         /\ replica[r][l][k] = -1 /\ k \in wupd[r][l]} IN
+                 Excused == {k \in Bad : \/ /\ "F5" \in EnabledFindings /\ sfresh[r][l]
+                                            /\ replica[r][l][k] = -1 /\ k \in wupd[r][l]
+                                         \* Known finding F12, second shape: the lane had a backlog of events (performed before
+                                         \* the sync request, not yet processed by the runtime - the store lags the lane) when
+                                         \* the sync started; they are older than the snapshot but prune / empty it or reach the
+                                         \* remote after it, so the replica is not a snapshot at synced (it converges afterwards).
+                                         \/ /\ "F12" \in EnabledFindings /\ late[r][l] > 0} IN
              \* C03: every key of the replica holds a value (or is absent) as the lane held it at some
              \* moment between the sync request and now
              /\ Bad \subseteq Excused
@@ -174,11 +185,12 @@ Step(e) ==
              /\ f5' = [f5 EXCEPT ![r][l] = @ \cup Excused \cup
                           (IF "F5" \in EnabledFindings /\ open[r][l] /\ win[r][l] > 0 /\ sfresh[r][l]
                              THEN {k \in wupd[r][l] : replica[r][l][k] = -1} ELSE {})]
-             /\ (Excused # {} => TLCSet(2, TLCGet(2) \cup {"F5"}))
+             /\ (Excused # {} => TLCSet(2, TLCGet(2) \cup
+                                   (IF \E k \in Excused : sfresh[r][l] /\ k \in wupd[r][l] /\ "F5" \in EnabledFindings THEN {"F5"} ELSE {"F12"})))
           /\ synced' = [synced EXCEPT ![r][l] = TRUE]
           /\ full' = IF open[r][l] /\ win[r][l] > 0 THEN [full EXCEPT ![r][l] = TRUE] ELSE full
           /\ win' = [win EXCEPT ![r][l] = IF @ > 0 THEN @ - 1 ELSE 0]
-       /\ UNCHANGED <<M, Hk, clears, open, pend, lp, lastClear, replica, adm, alive, td, sfresh, wupd, swin>>
+       /\ UNCHANGED <<M, Hk, clears, open, pend, lp, lastClear, replica, adm, alive, td, sfresh, wupd, swin, nclr, late>>
     \/ /\ e.e = "frame" /\ e.kind = "unlinked"
        /\ LET r == e.r  l == e.lane IN
           /\ open' = [open EXCEPT ![r][l] = FALSE]
@@ -188,12 +200,16 @@ Step(e) ==
           /\ full' = [full EXCEPT ![r][l] = FALSE]
           /\ f5' = [f5 EXCEPT ![r][l] = {}]
           /\ swin' = [swin EXCEPT ![r][l] = {}]
-       /\ UNCHANGED <<M, Hk, clears, lp, lastClear, replica, adm, alive, td, sfresh, wupd>>
+       /\ UNCHANGED <<M, Hk, clears, lp, lastClear, replica, adm, alive, td, sfresh, wupd, nclr, late>>
+    \/ /\ e.e \in {"sclr", "supd", "srem"}       \* a store call: the runtime has processed that lane event
+       /\ nclr' = [nclr EXCEPT ![e.lane] = IF e.e = "sclr" THEN Empty
+                                           ELSE IF e.k \in Keys THEN [@ EXCEPT ![e.k] = IF e.e = "supd" THEN e.v ELSE -1] ELSE @]
+       /\ UNCHANGED <<M, Hk, clears, open, pend, lp, lastClear, replica, full, synced, win, adm, alive, td, sfresh, wupd, f5, swin, late>>
     \/ /\ e.e = "mark"      \* some other request was sent (delimits the operations of a take / drop command)
-       /\ UNCHANGED <<M, Hk, clears, open, pend, lp, lastClear, replica, full, synced, win, adm, alive, td, sfresh, wupd, f5, swin>>
+       /\ UNCHANGED <<M, Hk, clears, open, pend, lp, lastClear, replica, full, synced, win, adm, alive, td, sfresh, wupd, f5, swin, nclr, late>>
     \/ /\ e.e = "gone"
        /\ alive' = [alive EXCEPT ![e.r] = FALSE]
-       /\ UNCHANGED <<M, Hk, clears, open, pend, lp, lastClear, replica, full, synced, win, adm, td, sfresh, wupd, f5, swin>>
+       /\ UNCHANGED <<M, Hk, clears, open, pend, lp, lastClear, replica, full, synced, win, adm, td, sfresh, wupd, f5, swin, nclr, late>>
     \/ /\ e.e = "quiescent"
        \* convergence: a drained, linked remote that holds the full state holds exactly the lane's map
        /\ \A x \in 1..Len(e.drained) : \A l \in MLanes :
@@ -201,7 +217,7 @@ Step(e) ==
              (alive[r] /\ open[r][l] /\ full[r][l]) =>
                 \A k \in Keys : \/ replica[r][l][k] = M[l][k]
                                 \/ (k \in f5[r][l] /\ replica[r][l][k] = -1 /\ TLCSet(2, TLCGet(2) \cup {"F5"}))
-       /\ UNCHANGED <<M, Hk, clears, open, pend, lp, lastClear, replica, full, synced, win, adm, alive, td, sfresh, wupd, f5, swin>>
+       /\ UNCHANGED <<M, Hk, clears, open, pend, lp, lastClear, replica, full, synced, win, adm, alive, td, sfresh, wupd, f5, swin, nclr, late>>
 
 \* a take / drop command has been processed once something other than its own lane operations is
 \* logged: the lane must then hold exactly the entries designated by the documented key order
@@ -214,7 +230,7 @@ TraceNext ==
        IF TDDue(e)
          THEN /\ TDOk(e)
               /\ td' = [l \in MLanes |-> IF ~(e.e = "op" /\ e.lane = l) THEN <<>> ELSE td[l]]
-              /\ UNCHANGED <<i, M, Hk, clears, open, pend, lp, lastClear, replica, full, synced, win, adm, alive, sfresh, wupd, f5, swin>>
+              /\ UNCHANGED <<i, M, Hk, clears, open, pend, lp, lastClear, replica, full, synced, win, adm, alive, sfresh, wupd, f5, swin, nclr, late>>
          ELSE /\ Step(e)
               /\ i' = i + 1
               /\ TLCSet(1, Max(TLCGet(1), i + 1))
